@@ -216,7 +216,8 @@ func (f *aggrMinFunc) Update(kv KVPair, args []Expression, ctx *ExecuteCtx) erro
 		f.isFloat = isFloat
 		return nil
 	}
-	if f.isFloat {
+	// integers are compared as integers only when both values are integers
+	if f.isFloat || isFloat {
 		if f.fmin > fval {
 			f.imin = ival
 			f.fmin = fval
@@ -276,7 +277,8 @@ func (f *aggrMaxFunc) Update(kv KVPair, args []Expression, ctx *ExecuteCtx) erro
 		f.isFloat = isFloat
 		return nil
 	}
-	if f.isFloat {
+	// integers are compared as integers only when both values are integers
+	if f.isFloat || isFloat {
 		if f.fmax < fval {
 			f.imax = ival
 			f.fmax = fval
